@@ -278,6 +278,13 @@ def gen_ops(seed_parts, world, profile, max_steps):
             extra.append((arng.randrange(len(ops) + 1),
                           {"op": "aux", "call": arng.choice(AUX_CALLS), "axis": gen_axis(arng, profile),
                            "input": arng.randrange(info["n_inputs"]), "ds": arng.randrange(n_datasets)}))
+    # an asynchronous exception at an arbitrary line of a request (own PRNG stream: nothing else moves)
+    irng = prng.stream(*seed_parts, "interrupt")
+    if ops and irng.random() < profile.get("p_interrupt", 0.25):
+        for _ in range(irng.randint(1, 2)):
+            extra.append((irng.randrange(len(ops)),
+                          {"op": "interrupt", "nth": irng.choice([irng.randint(1, 40), irng.randint(1, 150), irng.randint(1, 400)]),
+                           "exc": irng.choice(["KeyboardInterrupt", "KeyboardInterrupt", "MemoryError"])}))
     if "rng" in enabled:
         for _ in range(frng.randint(1, 2)):
             extra.append((frng.randrange(len(ops) + 1), {"op": "rng", "seed": frng.randrange(2 ** 31),
